@@ -193,7 +193,7 @@ def run_shard(shard):
         acc.label('comments_%s' % wc)
     if shard['kind'] == 'g1':
         cfg = gen_program.Config(nesting_bias=True)
-        strat = st.tuples(gen_program.program_strategy(cfg=cfg, min_fuel=2, max_fuel=7), INDENTS, st.booleans())
+        strat = st.tuples(gen_program.program_strategy(cfg=cfg, min_fuel=3, max_fuel=7), INDENTS, st.booleans())
         run_given(strat, lambda x: one(x[0]['text'], x[1], x[2], 'g1'), shard['n'], shard['hseed'], acc)
     else:
         for src in c03.load_corpus():
